@@ -4,6 +4,9 @@ Core Lean only.
 -/
 import AurelVerif.Model.Heap
 
+set_option linter.unusedSimpArgs false
+set_option linter.unusedVariables false
+
 namespace AurelVerif.Heap
 
 /-! ## positional environments -/
@@ -552,5 +555,968 @@ theorem Inv_call {pv h₀ n₀ σ st} {sm : Summ} {τ : AS} (x : Var) (args : Li
     cases hr' with
     | inl h => exact descrRoot_mono (Taint.le_join_left _ _) (hi.esc r h)
     | inr h => exact descrRoot_mono (Taint.le_join_right _ _) (hesc r h)
+
+/-! ## soundness of the abstract interpreter -/
+
+
+def Consistent (p : Program) (S : List Summ) : Prop :=
+  ∀ f fn, p.fns[f]? = some fn → (bodySumm S p.keyFn fn).le (getE Summ.bot S f)
+
+theorem Inv_init (vals : List Val) (h : Heap) (ch : List Bool) :
+    Inv vals h h.next ⟨[], false, Summ.bot⟩ (St.init vals h ch) where
+  params := rfl
+  base := rfl
+  next := Nat.le_refl _
+  env := fun _ => ⟨Nat.le_refl _, fun x => by simp [St.init, getV, getE]; exact descrVal_none _ _ _⟩
+  leaked := fun _ h => by simp [St.init] at h
+  ret := fun v h => by simp [St.init] at h
+  ver := fun c r h => absurd rfl h
+  esc := fun r h => by simp [St.init] at h
+
+theorem Inv_ch {pv h₀ n₀ σ st} (cs : List Bool) (hi : Inv pv h₀ n₀ σ st) :
+    Inv pv h₀ n₀ σ { st with ch := cs } where
+  params := hi.params
+  base := hi.base
+  next := hi.next
+  env := hi.env
+  leaked := hi.leaked
+  ret := hi.ret
+  ver := hi.ver
+  esc := hi.esc
+
+theorem envLe_absorbA (ae : List AVal) (t : Taint) : envLe ae (absorbA ae t) := by
+  refine ⟨by simp [absorbA], fun x => ?_⟩
+  by_cases hx : x < ae.length
+  · rw [getA_absorbA_lt ae t x hx]
+    exact ⟨Taint.le_refl _, Taint.le_join_left _ _⟩
+  · have h1 : getA ae x = AVal.bot := getE_of_length_le _ _ _ (Nat.le_of_not_lt hx)
+    rw [h1]
+    exact AVal.bot_le _
+
+theorem exec_sound (p : Program) (S : List Summ) (hc : Consistent p S) :
+    ∀ (fuel : Nat) (s : Stmt) (σ : AS) (st st' : St) (pv : List Val) (h₀ : Heap) (n₀ : Nat),
+      exec p fuel s st = some st' → (analyse S p.keyFn s σ).s.ok = true →
+      Inv pv h₀ n₀ σ st → Inv pv h₀ n₀ (analyse S p.keyFn s σ) st' := by
+  intro fuel
+  induction fuel with
+  | zero => intro s σ st st' pv h₀ n₀ h; simp [exec] at h
+  | succ fuel ih =>
+    intro s σ st st' pv h₀ n₀ hex hok hi
+    by_cases hret : st.ret.isSome = true
+    · simp only [exec, hret, if_true] at hex
+      cases hex
+      exact Inv_returned hret (analyse_s_mono S p.keyFn s σ) hi
+    · have hr : st.ret = none := by
+        cases h : st.ret with
+        | none => rfl
+        | some v => simp [h] at hret
+      cases s with
+      | skip =>
+        simp only [exec, hret] at hex
+        cases hex
+        exact hi
+      | seq a b =>
+        simp only [exec, hret] at hex
+        cases h1 : exec p fuel a st with
+        | none => simp [h1] at hex
+        | some st1 =>
+          simp only [h1] at hex
+          have hoka : (analyse S p.keyFn a σ).s.ok = true := (analyse_s_mono S p.keyFn b _).1 hok
+          exact ih b _ st1 st' pv h₀ n₀ hex hok (ih a σ st st1 pv h₀ n₀ h1 hoka hi)
+      | ite a b =>
+        simp only [exec, hret] at hex
+        have hokab : (analyse S p.keyFn a σ).s.ok = true ∧ (analyse S p.keyFn b σ).s.ok = true := by
+          simpa [analyse, AS.join, Summ.join] using hok
+        cases hch : st.ch with
+        | nil =>
+          simp only [hch] at hex
+          exact Inv_mono (AS.le_join_right _ _) (ih b σ st st' pv h₀ n₀ hex hokab.2 hi)
+        | cons c cs =>
+          simp only [hch] at hex
+          cases c with
+          | true =>
+            simp only [if_true] at hex
+            exact Inv_mono (AS.le_join_left _ _) (ih a σ _ st' pv h₀ n₀ hex hokab.1 (Inv_ch cs hi))
+          | false =>
+            simp only [Bool.false_eq_true, if_false] at hex
+            exact Inv_mono (AS.le_join_right _ _) (ih b σ _ st' pv h₀ n₀ hex hokab.2 (Inv_ch cs hi))
+      | loop b =>
+        simp only [exec, hret] at hex
+        have hspec := loopFix_spec (fun τ => analyse S p.keyFn b τ) loopRounds σ
+        have hdef : analyse S p.keyFn (.loop b) σ = loopFix (fun τ => analyse S p.keyFn b τ) loopRounds σ := rfl
+        rw [hdef] at hok ⊢
+        have hstab := hspec.2 hok
+        have hi' := Inv_mono hspec.1 hi
+        cases hch : st.ch with
+        | nil =>
+          simp only [hch] at hex
+          cases hex
+          exact hi'
+        | cons c cs =>
+          simp only [hch] at hex
+          cases c with
+          | false =>
+            simp only [Bool.false_eq_true, if_false] at hex
+            cases hex
+            exact Inv_ch cs hi'
+          | true =>
+            simp only [if_true] at hex
+            cases h1 : exec p fuel b { st with ch := cs } with
+            | none => simp [h1] at hex
+            | some st1 =>
+              simp only [h1] at hex
+              have hle := AS.leB_sound hstab
+              have hokb : (analyse S p.keyFn b (loopFix (fun τ => analyse S p.keyFn b τ) loopRounds σ)).s.ok = true :=
+                hle.2.2.1 hok
+              have hi1 := Inv_mono hle (ih b _ _ st1 pv h₀ n₀ h1 hokb (Inv_ch cs hi'))
+              have hfix : analyse S p.keyFn (.loop b) (loopFix (fun τ => analyse S p.keyFn b τ) loopRounds σ)
+                  = loopFix (fun τ => analyse S p.keyFn b τ) loopRounds σ :=
+                loopFix_stable _ 7 _ hstab
+              have := ih (.loop b) _ st1 st' pv h₀ n₀ hex (by rw [hfix]; exact hok) hi1
+              rw [hfix] at this
+              exact this
+      | join x ys =>
+        simp only [exec, hret] at hex
+        cases hex
+        have he := hi.env hr
+        refine Inv_step hi ?_ ?_ ?_ ?_ ?_ ?_ ?_ ?_ ?_
+        · rfl
+        · rfl
+        · exact (Nat.le_succ _)
+        · intro _
+          apply descrEnv_set x he
+          refine ⟨fun r h => ?_, fun r h => ?_⟩
+          · simp only [List.mem_singleton] at h
+            exact Or.inl (h ▸ hi.next)
+          · simp only [List.mem_cons] at h
+            cases h with
+            | inl h => exact Or.inl (h ▸ hi.next)
+            | inr h => exact descr_reachOf ys he r h
+        · exact fun h l => hi.leaked hr l
+        · intro v hv; simp [hr] at hv
+        · intro c r hcr; exact absurd (by cases c <;> rfl) hcr
+        · exact Summ.le_refl _
+        · exact hi.esc
+      | alias x y =>
+        simp only [exec, hret] at hex
+        cases hex
+        have he := hi.env hr
+        refine Inv_step hi ?_ ?_ ?_ ?_ ?_ ?_ ?_ ?_ ?_
+        · rfl
+        · rfl
+        · exact (Nat.le_refl _)
+        · intro _; exact descrEnv_set x he (he.2 y)
+        · exact fun h l => hi.leaked hr l
+        · intro v hv; simp [hr] at hv
+        · intro c r hcr; exact absurd rfl hcr
+        · exact Summ.le_refl _
+        · exact hi.esc
+      | view x ys =>
+        simp only [exec, hret] at hex
+        cases hex
+        have he := hi.env hr
+        refine Inv_step hi ?_ ?_ ?_ ?_ ?_ ?_ ?_ ?_ ?_
+        · rfl
+        · rfl
+        · exact (Nat.le_succ _)
+        · intro _
+          exact descrEnv_set x he ⟨descr_reachOf ys he, descr_reachOf ys he⟩
+        · exact fun h l => hi.leaked hr l
+        · intro v hv; simp [hr] at hv
+        · intro c r hcr; exact absurd (by cases c <;> rfl) hcr
+        · exact Summ.le_refl _
+        · exact hi.esc
+      | param x i =>
+        simp only [exec, hret] at hex
+        cases hex
+        have he := hi.env hr
+        refine Inv_step hi ?_ ?_ ?_ ?_ ?_ ?_ ?_ ?_ ?_
+        · rfl
+        · rfl
+        · exact (Nat.le_refl _)
+        · intro _
+          apply descrEnv_set x he
+          rw [hi.params]
+          refine ⟨fun r h => Or.inr ⟨2 * i + 1, by simp, ?_⟩, fun r h => Or.inr ⟨2 * i + 2, by simp, ?_⟩⟩
+          · have h1 : (2 * i) % 2 = 0 := by omega
+            have h2 : (2 * i) / 2 = i := by omega
+            simp only [holds, h1, h2, if_true]
+            exact h
+          · have h1 : ¬ ((2 * i + 1) % 2 = 0) := by omega
+            have h2 : (2 * i + 1) / 2 = i := by omega
+            simp only [holds, h1, h2, if_false]
+            exact h
+        · exact fun h l => hi.leaked hr l
+        · intro v hv; simp [hr] at hv
+        · intro c r hcr; exact absurd rfl hcr
+        · exact Summ.le_refl _
+        · exact hi.esc
+      | glob x k =>
+        simp only [exec, hret] at hex
+        cases hl : st.h.cache.lookup k with
+        | none => simp [hl] at hex
+        | some v =>
+          simp only [hl] at hex
+          cases hex
+          have he := hi.env hr
+          refine Inv_step hi ?_ ?_ ?_ ?_ ?_ ?_ ?_ ?_ ?_
+          · rfl
+          · rfl
+          · exact (Nat.le_refl _)
+          · intro _
+            exact descrEnv_set x he ⟨fun r _ => Or.inr ⟨0, by simp, trivial⟩, fun r _ => Or.inr ⟨0, by simp, trivial⟩⟩
+          · exact fun h l => hi.leaked hr l
+          · intro v hv; simp [hr] at hv
+          · intro c r hcr; exact absurd rfl hcr
+          · exact Summ.le_refl _
+          · exact hi.esc
+      | mutate x =>
+        simp only [exec, hret] at hex
+        cases hex
+        have he := hi.env hr
+        refine Inv_step hi ?_ ?_ ?_ ?_ ?_ ?_ ?_ ?_ ?_
+        · rfl
+        · rfl
+        · exact (Nat.le_refl _)
+        · intro _; exact he
+        · exact fun h l => hi.leaked hr l
+        · intro v hv; simp [hr] at hv
+        · intro c r hcr
+          have hmem : r ∈ (getV st.env x).own := by
+            cases c
+            · exact bump_ne (by simpa [Heap.ver] using hcr)
+            · exact bump_ne (by simpa [Heap.ver] using hcr)
+          have := (he.2 x).1 r hmem
+          cases c
+          · exact descrRoot_mono (Taint.le_join_right _ _) this
+          · exact descrRoot_mono (Taint.le_join_right _ _) this
+        · exact analyse_s_mono S p.keyFn (.mutate x) σ
+        · exact hi.esc
+      | cmutate x =>
+        simp only [exec, hret] at hex
+        cases hex
+        have he := hi.env hr
+        refine Inv_step hi ?_ ?_ ?_ ?_ ?_ ?_ ?_ ?_ ?_
+        · rfl
+        · rfl
+        · exact (Nat.le_refl _)
+        · intro _; exact he
+        · exact fun h l => hi.leaked hr l
+        · intro v hv; simp [hr] at hv
+        · intro c r hcr
+          cases c
+          · exact absurd rfl hcr
+          · have hmem : r ∈ (getV st.env x).own := bump_ne (by simpa [Heap.ver] using hcr)
+            exact descrRoot_mono (Taint.le_join_right _ _) ((he.2 x).1 r hmem)
+        · exact analyse_s_mono S p.keyFn (.cmutate x) σ
+        · exact hi.esc
+      | store k x =>
+        simp only [exec, hret] at hex
+        cases hex
+        exact Inv_cache _ hi
+      | ret x =>
+        simp only [exec, hret] at hex
+        cases hex
+        have he := hi.env hr
+        refine Inv_step hi ?_ ?_ ?_ ?_ ?_ ?_ ?_ ?_ ?_
+        · rfl
+        · rfl
+        · exact (Nat.le_refl _)
+        · intro h; simp at h
+        · intro h; simp at h
+        · intro v hv
+          simp only [Option.some.injEq] at hv
+          subst hv
+          exact ⟨descrL_mono (Taint.le_join_right _ _) (he.2 x).1, descrL_mono (Taint.le_join_right _ _) (he.2 x).2⟩
+        · intro c r hcr; exact absurd rfl hcr
+        · exact analyse_s_mono S p.keyFn (.ret x) σ
+        · exact hi.esc
+      | absorb x y =>
+        simp only [exec, hret] at hex
+        cases hex
+        have he := hi.env hr
+        have hvis : (st.leaked || (getV st.env x).own.any (fun r => decide (r < st.base))) = true →
+            (σ.leaked || !(getA σ.env x).own.isEmpty) = true := by
+          intro h
+          simp only [Bool.or_eq_true] at h
+          cases h with
+          | inl h => simp [hi.leaked hr h]
+          | inr h =>
+            obtain ⟨r, hrm, hlt⟩ := List.any_eq_true.mp h
+            have hlt' : r < n₀ := by simpa [hi.base] using hlt
+            cases (he.2 x).1 r hrm with
+            | inl h' => exact absurd h' (Nat.not_le_of_lt hlt')
+            | inr h' =>
+              obtain ⟨a, ha, _⟩ := h'
+              cases hown : (getA σ.env x).own with
+              | nil => simp [hown] at ha
+              | cons b l => simp
+        refine Inv_step hi ?_ ?_ ?_ ?_ ?_ ?_ ?_ ?_ ?_
+        · rfl
+        · rfl
+        · exact Nat.le_refl _
+        · intro _
+          simp only [analyse]
+          exact descrEnv_absorb he (he.2 y).2
+        · intro _ hl
+          simp only [analyse]
+          exact hvis hl
+        · intro v hv; simp [hr] at hv
+        · intro c r hcr; exact absurd rfl hcr
+        · exact analyse_s_mono S p.keyFn (.absorb x y) σ
+        · simp only [analyse]
+          by_cases hv : (st.leaked || (getV st.env x).own.any (fun r => decide (r < st.base))) = true
+          · simp only [hv, if_true, hvis hv]
+            intro r hrm
+            simp only [List.mem_append] at hrm
+            cases hrm with
+            | inl h => exact descrRoot_mono (Taint.le_join_left _ _) (hi.esc r h)
+            | inr h => exact descrRoot_mono (Taint.le_join_right _ _) ((he.2 y).2 r h)
+          · simp only [hv]
+            split
+            · exact descrL_mono (Taint.le_join_left _ _) hi.esc
+            · exact hi.esc
+      | call x f args =>
+        simp only [exec, hret] at hex
+        cases hf : p.fns[f]? with
+        | none => simp [hf] at hex
+        | some fn =>
+          simp only [hf] at hex
+          cases h1 : exec p fuel fn.body (St.init (args.map (getV st.env)) st.h st.ch) with
+          | none => simp [h1] at hex
+          | some st1 =>
+            simp only [h1, Bool.false_eq_true, if_false, Option.some.injEq] at hex
+            subst hex
+            have hle := hc f fn hf
+            have hoksm : (getE Summ.bot S f).ok = true := by
+              have : (σ.s.ok && (getE Summ.bot S f).ok) = true := by simpa [analyse, applyCall] using hok
+              simp only [Bool.and_eq_true] at this
+              exact this.2
+            have hcal := ih fn.body ⟨[], false, Summ.bot⟩ _ st1 _ st.h st.h.next h1 (hle.1 hoksm)
+              (Inv_init (args.map (getV st.env)) st.h st.ch)
+            exact Inv_call x args AVal.bot st1 hi hr hcal hle
+      | cached x k =>
+        simp only [exec, hret] at hex
+        have he := hi.env hr
+        cases hl : st.h.cache.lookup k with
+        | some v =>
+          simp only [hl, Bool.false_eq_true, if_false, Option.some.injEq] at hex
+          subst hex
+          have hany : descrVal pv n₀ ⟨[0], [0]⟩ v :=
+            ⟨fun r _ => Or.inr ⟨0, by simp, trivial⟩, fun r _ => Or.inr ⟨0, by simp, trivial⟩⟩
+          refine Inv_step hi ?_ ?_ ?_ ?_ ?_ ?_ ?_ ?_ ?_
+          · rfl
+          · rfl
+          · exact Nat.le_refl _
+          · intro _
+            simp only [analyse]
+            cases p.keyFn k with
+            | none => exact descrEnv_set x he hany
+            | some f =>
+              simp only [applyCall]
+              exact descrEnv_set x (descrEnv_mono (envLe_absorbA _ _) he)
+                (descrVal_mono ⟨Taint.le_join_left _ _, Taint.le_join_left _ _⟩ hany)
+          · intro _ hlk
+            have := hi.leaked hr hlk
+            simp only [analyse]
+            cases p.keyFn k with
+            | none => exact this
+            | some f => exact this
+          · intro v hv; simp [hr] at hv
+          · intro c r hcr; exact absurd rfl hcr
+          · exact analyse_s_mono S p.keyFn (.cached x k) σ
+          · exact descrL_mono (analyse_s_mono S p.keyFn (.cached x k) σ).2.2.2.2.2 hi.esc
+        | none =>
+          simp only [hl] at hex
+          cases hk : p.keyFn k with
+          | none => simp [hk] at hex
+          | some f =>
+            simp only [hk] at hex
+            cases hf : p.fns[f]? with
+            | none => simp [hf] at hex
+            | some fn =>
+              simp only [hf] at hex
+              cases h1 : exec p fuel fn.body (St.init [] st.h st.ch) with
+              | none => simp [h1] at hex
+              | some st1 =>
+                simp only [h1, Bool.false_eq_true, if_false, Option.some.injEq] at hex
+                subst hex
+                have hle := hc f fn hf
+                have hoksm : (getE Summ.bot S f).ok = true := by
+                  have : (σ.s.ok && (getE Summ.bot S f).ok) = true := by simpa [analyse, hk, applyCall] using hok
+                  simp only [Bool.and_eq_true] at this
+                  exact this.2
+                have hcal := ih fn.body ⟨[], false, Summ.bot⟩ _ st1 _ st.h st.h.next h1 (hle.1 hoksm)
+                  (Inv_init [] st.h st.ch)
+                have := Inv_call (σ := σ) x [] ⟨[0], [0]⟩ st1 hi hr hcal hle
+                simp only [analyse, hk]
+                exact Inv_cache _ this
+
+/-! ## from the check to requests -/
+
+theorem all_range' {P : Nat → Bool} {s n : Nat} (h : (List.range' s n).all P = true) :
+    ∀ f, s ≤ f → f < s + n → P f = true := by
+  intro f h1 h2
+  exact List.all_eq_true.mp h f (List.mem_range'_1.mpr ⟨h1, h2⟩)
+
+theorem checkWith_of_all (p : Program) (S : List Summ)
+    (h : ∀ f, f < p.fns.length → checkFn p S f = true) : checkWith p S = true := by
+  unfold checkWith
+  exact List.all_eq_true.mpr fun f hf => h f (List.mem_range.mp hf)
+
+theorem checkWith_spec {p : Program} {S : List Summ} (h : checkWith p S = true) :
+    Consistent p S ∧ ∀ f fn, p.fns[f]? = some fn → fnOK fn (getE Summ.bot S f) = true := by
+  have key : ∀ f fn, p.fns[f]? = some fn →
+      (bodySumm S p.keyFn fn).leB (getE Summ.bot S f) = true ∧ fnOK fn (getE Summ.bot S f) = true := by
+    intro f fn hf
+    have hlt : f < p.fns.length := by
+      have := List.getElem?_eq_some_iff.mp hf
+      exact this.1
+    have := List.all_eq_true.mp h f (List.mem_range.mpr hlt)
+    simpa [checkFn, hf] using this
+  exact ⟨fun f fn hf => Summ.leB_sound (key f fn hf).1, fun f fn hf => (key f fn hf).2⟩
+
+/-- what one finished activation of function `f` may have changed, and what it returns -/
+theorem request_sound {p : Program} {S : List Summ} (hc : Consistent p S) {f : FnId} {fn : Fn}
+    (hf : p.fns[f]? = some fn) (hok : (getE Summ.bot S f).ok = true)
+    {fuel : Nat} {args : List Val} {h : Heap} {ch : List Bool} {v : Val} {h' : Heap}
+    (hreq : request p fuel f args h ch = some (v, h')) :
+    (∀ c r, h'.ver c r ≠ h.ver c r → descrRoot args h.next ((getE Summ.bot S f).mut c) r) ∧
+    descrVal args h.next ⟨(getE Summ.bot S f).retOwn, (getE Summ.bot S f).retReach⟩ v ∧
+    h.next ≤ h'.next := by
+  simp only [request, hf] at hreq
+  cases h1 : exec p fuel fn.body (St.init args h ch) with
+  | none => simp [h1] at hreq
+  | some st' =>
+    simp only [h1, Option.some.injEq, Prod.mk.injEq] at hreq
+    obtain ⟨hv, hh⟩ := hreq
+    have hle := hc f fn hf
+    have hinv := exec_sound p S hc fuel fn.body ⟨[], false, Summ.bot⟩ _ st' args h h.next h1 (hle.1 hok)
+      (Inv_init args h ch)
+    subst hh
+    refine ⟨fun c r hcr => descrRoot_mono (Summ.mut_le hle c) (hinv.ver c r hcr), ?_, hinv.next⟩
+    subst hv
+    cases hr : st'.ret with
+    | none => exact descrVal_none _ _ _
+    | some w => exact descrVal_mono ⟨hle.2.2.2.1, hle.2.2.2.2.1⟩ (hinv.ret w hr)
+
+theorem descrRoot_nil {pv : List Val} {n₀ r : Nat} (h : descrRoot pv n₀ [] r) : n₀ ≤ r := by
+  rcases h with h | ⟨a, ha, _⟩
+  · exact h
+  · simp at ha
+
+
+/-! ## well-formedness: every root a value mentions has been allocated -/
+
+def ValWF (n : Nat) (v : Val) : Prop := (∀ r ∈ v.own, r < n) ∧ (∀ r ∈ v.reach, r < n)
+
+structure StWF (st : St) : Prop where
+  env : ∀ v ∈ st.env, ValWF st.h.next v
+  params : ∀ v ∈ st.params, ValWF st.h.next v
+  ret : ∀ v, st.ret = some v → ValWF st.h.next v
+  esc : ∀ r ∈ st.esc, r < st.h.next
+  cache : ∀ kv ∈ st.h.cache, ValWF st.h.next kv.2
+
+theorem ValWF_mono {n m : Nat} {v : Val} (h : n ≤ m) (hv : ValWF n v) : ValWF m v :=
+  ⟨fun r hr => Nat.lt_of_lt_of_le (hv.1 r hr) h, fun r hr => Nat.lt_of_lt_of_le (hv.2 r hr) h⟩
+
+theorem ValWF_none (n : Nat) : ValWF n Val.none :=
+  ⟨fun r h => by simp [Val.none] at h, fun r h => by simp [Val.none] at h⟩
+
+theorem getE_mem {α : Type} (d : α) (e : List α) (x : Nat) : getE d e x = d ∨ getE d e x ∈ e := by
+  induction e generalizing x with
+  | nil => left; simp [getE]
+  | cons a e ih =>
+    cases x with
+    | zero => right; simp [getE]
+    | succ n =>
+      simp only [getE]
+      cases ih n with
+      | inl h => left; exact h
+      | inr h => right; exact List.mem_cons_of_mem _ h
+
+theorem mem_setE {α : Type} (d : α) (e : List α) (x : Nat) (v w : α) (h : w ∈ setE d e x v) :
+    w = v ∨ w = d ∨ w ∈ e := by
+  induction x generalizing e with
+  | zero =>
+    cases e with
+    | nil => simp [setE] at h; exact Or.inl h
+    | cons a e =>
+      simp [setE] at h
+      cases h with
+      | inl h => exact Or.inl h
+      | inr h => exact Or.inr (Or.inr (List.mem_cons_of_mem _ h))
+  | succ n ih =>
+    cases e with
+    | nil =>
+      simp only [setE, List.mem_cons] at h
+      cases h with
+      | inl h => exact Or.inr (Or.inl h)
+      | inr h =>
+        rcases ih [] h with h | h | h
+        · exact Or.inl h
+        · exact Or.inr (Or.inl h)
+        · simp at h
+    | cons a e =>
+      simp only [setE, List.mem_cons] at h
+      cases h with
+      | inl h => exact Or.inr (Or.inr (by simp [h]))
+      | inr h =>
+        rcases ih e h with h | h | h
+        · exact Or.inl h
+        · exact Or.inr (Or.inl h)
+        · exact Or.inr (Or.inr (List.mem_cons_of_mem _ h))
+
+theorem getV_wf {n : Nat} {e : List Val} (he : ∀ v ∈ e, ValWF n v) (x : Nat) : ValWF n (getV e x) := by
+  cases getE_mem Val.none e x with
+  | inl h => simp only [getV, h]; exact ValWF_none n
+  | inr h => exact he _ h
+
+theorem setV_wf {n : Nat} {e : List Val} (he : ∀ v ∈ e, ValWF n v) (x : Nat) {v : Val} (hv : ValWF n v) :
+    ∀ w ∈ setV e x v, ValWF n w := by
+  intro w hw
+  rcases mem_setE Val.none e x v w hw with h | h | h
+  · rw [h]; exact hv
+  · rw [h]; exact ValWF_none n
+  · exact he w h
+
+theorem absorbAll_wf {n : Nat} {e : List Val} {rs : List Nat} (he : ∀ v ∈ e, ValWF n v)
+    (hrs : ∀ r ∈ rs, r < n) : ∀ w ∈ absorbAll e rs, ValWF n w := by
+  intro w hw
+  simp only [absorbAll, List.mem_map] at hw
+  obtain ⟨v, hv, rfl⟩ := hw
+  refine ⟨(he v hv).1, fun r hr => ?_⟩
+  simp only [List.mem_append] at hr
+  cases hr with
+  | inl h => exact (he v hv).2 r h
+  | inr h => exact hrs r h
+
+theorem reachOf_wf {n : Nat} {e : List Val} (he : ∀ v ∈ e, ValWF n v) (ys : List Var) :
+    ∀ r ∈ reachOf e ys, r < n := by
+  intro r hr
+  simp only [reachOf, List.mem_flatMap] at hr
+  obtain ⟨y, _, hr⟩ := hr
+  exact (getV_wf he y).2 r hr
+
+theorem lookup_mem {k : Key} {v : Val} : ∀ {l : List (Key × Val)}, l.lookup k = some v → (k, v) ∈ l
+  | [], h => by simp [List.lookup] at h
+  | (k', v') :: l, h => by
+    simp only [List.lookup] at h
+    split at h
+    · rename_i heq
+      simp only [Option.some.injEq] at h
+      have : k = k' := by simpa using heq
+      subst this; subst h
+      simp
+    · exact List.mem_cons_of_mem _ (lookup_mem h)
+
+theorem StWF_mono_env {st : St} {n : Nat} (h : st.h.next ≤ n) (hw : StWF st) :
+    (∀ v ∈ st.env, ValWF n v) ∧ (∀ v ∈ st.params, ValWF n v) ∧ (∀ r ∈ st.esc, r < n) ∧
+    (∀ kv ∈ st.h.cache, ValWF n kv.2) :=
+  ⟨fun v hv => ValWF_mono h (hw.env v hv), fun v hv => ValWF_mono h (hw.params v hv),
+   fun r hr => Nat.lt_of_lt_of_le (hw.esc r hr) h, fun kv hkv => ValWF_mono h (hw.cache kv hkv)⟩
+
+theorem StWF_init {args : List Val} {h : Heap} (ch : List Bool) (ha : ∀ v ∈ args, ValWF h.next v)
+    (hcache : ∀ kv ∈ h.cache, ValWF h.next kv.2) : StWF (St.init args h ch) where
+  env := fun v hv => by simp [St.init] at hv
+  params := ha
+  ret := fun v hv => by simp [St.init] at hv
+  esc := fun r hr => by simp [St.init] at hr
+  cache := hcache
+
+theorem exec_wf (p : Program) :
+    ∀ (fuel : Nat) (s : Stmt) (st st' : St), exec p fuel s st = some st' → StWF st →
+      StWF st' ∧ st.h.next ≤ st'.h.next := by
+  intro fuel
+  induction fuel with
+  | zero => intro s st st' h; simp [exec] at h
+  | succ fuel ih =>
+    intro s st st' hex hw
+    by_cases hret : st.ret.isSome = true
+    · simp only [exec, hret, if_true] at hex
+      cases hex
+      exact ⟨hw, Nat.le_refl _⟩
+    · have hr : st.ret = none := by
+        cases h : st.ret with
+        | none => rfl
+        | some v => simp [h] at hret
+      cases s with
+      | skip =>
+        simp only [exec, hret] at hex
+        cases hex
+        exact ⟨hw, Nat.le_refl _⟩
+      | seq a b =>
+        simp only [exec, hret] at hex
+        cases h1 : exec p fuel a st with
+        | none => simp [h1] at hex
+        | some st1 =>
+          simp only [h1] at hex
+          have h2 := ih a st st1 h1 hw
+          have h3 := ih b st1 st' hex h2.1
+          exact ⟨h3.1, Nat.le_trans h2.2 h3.2⟩
+      | ite a b =>
+        simp only [exec, hret] at hex
+        cases hch : st.ch with
+        | nil =>
+          simp only [hch, Bool.false_eq_true, if_false] at hex
+          exact ih b st st' hex hw
+        | cons c cs =>
+          simp only [hch, Bool.false_eq_true, if_false] at hex
+          have hw' : StWF { st with ch := cs } := ⟨hw.env, hw.params, hw.ret, hw.esc, hw.cache⟩
+          cases c with
+          | true =>
+            simp only [if_true, Bool.false_eq_true, if_false] at hex
+            exact ih a { st with ch := cs } st' hex hw'
+          | false =>
+            simp only [Bool.false_eq_true, if_false] at hex
+            exact ih b { st with ch := cs } st' hex hw'
+      | loop b =>
+        simp only [exec, hret] at hex
+        cases hch : st.ch with
+        | nil =>
+          simp only [hch, Bool.false_eq_true, if_false] at hex
+          cases hex
+          exact ⟨hw, Nat.le_refl _⟩
+        | cons c cs =>
+          simp only [hch, Bool.false_eq_true, if_false] at hex
+          have hw' : StWF { st with ch := cs } := ⟨hw.env, hw.params, hw.ret, hw.esc, hw.cache⟩
+          cases c with
+          | false =>
+            simp only [Bool.false_eq_true, if_false] at hex
+            cases hex
+            exact ⟨hw', Nat.le_refl _⟩
+          | true =>
+            simp only [if_true, Bool.false_eq_true, if_false] at hex
+            cases h1 : exec p fuel b { st with ch := cs } with
+            | none => simp [h1] at hex
+            | some st1 =>
+              simp only [h1] at hex
+              have h2 := ih b { st with ch := cs } st1 h1 hw'
+              have h3 := ih (.loop b) st1 st' hex h2.1
+              exact ⟨h3.1, Nat.le_trans h2.2 h3.2⟩
+      | join x ys =>
+        simp only [exec, hret] at hex
+        cases hex
+        obtain ⟨he, hp, hesc, hcache⟩ := StWF_mono_env (Nat.le_succ st.h.next) hw
+        refine ⟨⟨?_, hp, fun v hv => by simp [hr] at hv, hesc, hcache⟩, Nat.le_succ _⟩
+        apply setV_wf he
+        refine ⟨fun r h => ?_, fun r h => ?_⟩
+        · simp only [List.mem_singleton] at h; subst h; exact Nat.lt_succ_self _
+        · simp only [List.mem_cons] at h
+          cases h with
+          | inl h => subst h; exact Nat.lt_succ_self _
+          | inr h => exact Nat.lt_succ_of_lt (reachOf_wf hw.env ys r h)
+      | alias x y =>
+        simp only [exec, hret] at hex
+        cases hex
+        exact ⟨⟨setV_wf hw.env x (getV_wf hw.env y), hw.params, hw.ret, hw.esc, hw.cache⟩, Nat.le_refl _⟩
+      | view x ys =>
+        simp only [exec, hret] at hex
+        cases hex
+        obtain ⟨he, hp, hesc, hcache⟩ := StWF_mono_env (Nat.le_succ st.h.next) hw
+        refine ⟨⟨?_, hp, fun v hv => by simp [hr] at hv, hesc, hcache⟩, Nat.le_succ _⟩
+        apply setV_wf he
+        exact ⟨fun r h => Nat.lt_succ_of_lt (reachOf_wf hw.env ys r h),
+               fun r h => Nat.lt_succ_of_lt (reachOf_wf hw.env ys r h)⟩
+      | param x i =>
+        simp only [exec, hret] at hex
+        cases hex
+        exact ⟨⟨setV_wf hw.env x (getV_wf hw.params i), hw.params, hw.ret, hw.esc, hw.cache⟩, Nat.le_refl _⟩
+      | glob x k =>
+        simp only [exec, hret] at hex
+        cases hl : st.h.cache.lookup k with
+        | none => simp [hl] at hex
+        | some v =>
+          simp only [hl, Bool.false_eq_true, if_false, Option.some.injEq] at hex
+          cases hex
+          exact ⟨⟨setV_wf hw.env x (hw.cache _ (lookup_mem hl)), hw.params, hw.ret, hw.esc, hw.cache⟩, Nat.le_refl _⟩
+      | mutate x =>
+        simp only [exec, hret] at hex
+        cases hex
+        exact ⟨⟨hw.env, hw.params, hw.ret, hw.esc, hw.cache⟩, Nat.le_refl _⟩
+      | cmutate x =>
+        simp only [exec, hret] at hex
+        cases hex
+        exact ⟨⟨hw.env, hw.params, hw.ret, hw.esc, hw.cache⟩, Nat.le_refl _⟩
+      | absorb x y =>
+        simp only [exec, hret] at hex
+        cases hex
+        have hrs := (getV_wf hw.env y).2
+        refine ⟨⟨absorbAll_wf hw.env hrs, hw.params, hw.ret, ?_, hw.cache⟩, Nat.le_refl _⟩
+        intro r hr'
+        split at hr'
+        · simp only [List.mem_append] at hr'
+          cases hr' with
+          | inl h => exact hw.esc r h
+          | inr h => exact hrs r h
+        · exact hw.esc r hr'
+      | store k x =>
+        simp only [exec, hret] at hex
+        cases hex
+        refine ⟨⟨hw.env, hw.params, hw.ret, hw.esc, ?_⟩, Nat.le_refl _⟩
+        intro kv hkv
+        simp only [List.mem_cons] at hkv
+        cases hkv with
+        | inl h => subst h; exact getV_wf hw.env x
+        | inr h => exact hw.cache kv h
+      | ret x =>
+        simp only [exec, hret] at hex
+        cases hex
+        refine ⟨⟨hw.env, hw.params, ?_, hw.esc, hw.cache⟩, Nat.le_refl _⟩
+        intro v hv
+        simp only [Option.some.injEq] at hv
+        subst hv
+        exact getV_wf hw.env x
+      | call x f args =>
+        simp only [exec, hret] at hex
+        cases hf : p.fns[f]? with
+        | none => simp [hf] at hex
+        | some fn =>
+          simp only [hf] at hex
+          cases h1 : exec p fuel fn.body (St.init (args.map (getV st.env)) st.h st.ch) with
+          | none => simp [h1] at hex
+          | some st1 =>
+            simp only [h1, Bool.false_eq_true, if_false, Option.some.injEq] at hex
+            subst hex
+            have hinit : StWF (St.init (args.map (getV st.env)) st.h st.ch) :=
+              StWF_init st.ch (fun v hv => by
+                simp only [List.mem_map] at hv
+                obtain ⟨y, _, rfl⟩ := hv
+                exact getV_wf hw.env y) hw.cache
+            have h2 := ih fn.body _ st1 h1 hinit
+            have hle : st.h.next ≤ st1.h.next := h2.2
+            obtain ⟨he, hp, hesc, _⟩ := StWF_mono_env hle hw
+            refine ⟨⟨?_, hp, fun v hv => by simp [finishCall, hr] at hv, ?_, h2.1.cache⟩, hle⟩
+            · apply setV_wf (absorbAll_wf he h2.1.esc)
+              cases hrv : st1.ret with
+              | none => exact ValWF_none _
+              | some v => exact h2.1.ret v hrv
+            · intro r hr'
+              simp only [finishCall, List.mem_append] at hr'
+              cases hr' with
+              | inl h => exact hesc r h
+              | inr h => exact h2.1.esc r h
+      | cached x k =>
+        simp only [exec, hret] at hex
+        cases hl : st.h.cache.lookup k with
+        | some v =>
+          simp only [hl, Bool.false_eq_true, if_false, Option.some.injEq] at hex
+          cases hex
+          exact ⟨⟨setV_wf hw.env x (hw.cache _ (lookup_mem hl)), hw.params, hw.ret, hw.esc, hw.cache⟩, Nat.le_refl _⟩
+        | none =>
+          simp only [hl] at hex
+          cases hk : p.keyFn k with
+          | none => simp [hk] at hex
+          | some f =>
+            simp only [hk] at hex
+            cases hf : p.fns[f]? with
+            | none => simp [hf] at hex
+            | some fn =>
+              simp only [hf] at hex
+              cases h1 : exec p fuel fn.body (St.init [] st.h st.ch) with
+              | none => simp [h1] at hex
+              | some st1 =>
+                simp only [h1, Bool.false_eq_true, if_false, Option.some.injEq] at hex
+                subst hex
+                have hinit : StWF (St.init [] st.h st.ch) :=
+                  StWF_init st.ch (fun v hv => by simp at hv) hw.cache
+                have h2 := ih fn.body _ st1 h1 hinit
+                have hle : st.h.next ≤ st1.h.next := h2.2
+                obtain ⟨he, hp, hesc, _⟩ := StWF_mono_env hle hw
+                have hrv : ValWF st1.h.next (st1.ret.getD Val.none) := by
+                  cases hrv : st1.ret with
+                  | none => exact ValWF_none _
+                  | some v => exact h2.1.ret v hrv
+                refine ⟨⟨?_, hp, fun v hv => by simp [finishCall, hr] at hv, ?_, ?_⟩, hle⟩
+                · exact setV_wf (absorbAll_wf he h2.1.esc) x hrv
+                · intro r hr'
+                  simp only [finishCall, List.mem_append] at hr'
+                  cases hr' with
+                  | inl h => exact hesc r h
+                  | inr h => exact h2.1.esc r h
+                · intro kv hkv
+                  simp only [finishCall, List.mem_cons] at hkv
+                  cases hkv with
+                  | inl h => subst h; exact hrv
+                  | inr h => exact h2.1.cache kv h
+
+/-! ## the property theorems (stated in Props/C02.lean) -/
+
+theorem fnOK_spec {fn : Fn} {sm : Summ} (h : fnOK fn sm = true) :
+    sm.ok = true ∧ 0 ∉ sm.mutA ∧ (fn.pub = true → sm.mutA = []) ∧
+    (fn.strict = true → ∀ a ∈ sm.mutC, a % 2 = 1) ∧ (fn.cpub = true → ∀ a ∈ sm.mutC, a % 2 = 0) := by
+  simp only [fnOK, Bool.and_eq_true, Bool.or_eq_true, Bool.not_eq_true', List.all_eq_true,
+    beq_iff_eq] at h
+  obtain ⟨⟨⟨⟨h1, h2⟩, h3⟩, h4⟩, h5⟩ := h
+  refine ⟨h1, ?_, ?_, ?_, ?_⟩
+  · intro hm
+    have : sm.mutA.contains 0 = true := List.contains_iff_mem.mpr hm
+    simp [this] at h2
+    exact h2 hm
+  · intro hp
+    cases h3 with
+    | inl h => simp [hp] at h
+    | inr h => exact List.isEmpty_iff.mp h
+  · intro hs
+    cases h4 with
+    | inl h => simp [hs] at h
+    | inr h => exact h
+  · intro hc
+    cases h5 with
+    | inl h => simp [hc] at h
+    | inr h => exact h
+
+theorem check_sound_lemma (p : Program) (S : List Summ) (hchk : checkWith p S = true)
+    (f : FnId) (fn : Fn) (hf : p.fns[f]? = some fn) (hpub : fn.pub = true)
+    (fuel : Nat) (args : List Val) (h : Heap) (ch : List Bool) (v : Val) (h' : Heap)
+    (hreq : request p fuel f args h ch = some (v, h')) :
+    (∀ r, r < h.next → h'.aver r = h.aver r) ∧
+    (∀ r ∈ v.reach, (r < h.next ∧ h'.aver r = h.aver r) ∨ h.next ≤ r) := by
+  obtain ⟨hc, hall⟩ := checkWith_spec hchk
+  obtain ⟨hok, _, hmut, _, _⟩ := fnOK_spec (hall f fn hf)
+  obtain ⟨hver, _, _⟩ := request_sound hc hf hok hreq
+  have key : ∀ r, r < h.next → h'.aver r = h.aver r := by
+    intro r hr
+    by_cases heq : h'.aver r = h.aver r
+    · exact heq
+    · have := hver false r (by simpa [Heap.ver] using heq)
+      simp only [Summ.mut, hmut hpub] at this
+      exact absurd (descrRoot_nil this) (Nat.not_le_of_lt hr)
+  refine ⟨key, fun r _ => ?_⟩
+  cases Nat.lt_or_ge r h.next with
+  | inl hlt => exact Or.inl ⟨hlt, key r hlt⟩
+  | inr hge => exact Or.inr hge
+
+theorem check_sound_containers_lemma (p : Program) (S : List Summ) (hchk : checkWith p S = true)
+    (f : FnId) (fn : Fn) (hf : p.fns[f]? = some fn) (hs : fn.strict = true) (hcp : fn.cpub = true)
+    (fuel : Nat) (args : List Val) (h : Heap) (ch : List Bool) (v : Val) (h' : Heap)
+    (hreq : request p fuel f args h ch = some (v, h')) :
+    ∀ r, r < h.next → h'.cver r = h.cver r := by
+  obtain ⟨hc, hall⟩ := checkWith_spec hchk
+  obtain ⟨hok, _, _, hstrict, hcpub⟩ := fnOK_spec (hall f fn hf)
+  obtain ⟨hver, _, _⟩ := request_sound hc hf hok hreq
+  intro r hr
+  by_cases heq : h'.cver r = h.cver r
+  · exact heq
+  · have := hver true r (by simpa [Heap.ver] using heq)
+    rcases this with hge | ⟨a, ha, _⟩
+    · exact absurd hge (Nat.not_le_of_lt hr)
+    · have h1 := hstrict hs a (by simpa [Summ.mut] using ha)
+      have h0 := hcpub hcp a (by simpa [Summ.mut] using ha)
+      omega
+
+theorem check_sound_helpers_lemma (p : Program) (S : List Summ) (hchk : checkWith p S = true)
+    (f : FnId) (fn : Fn) (hf : p.fns[f]? = some fn)
+    (fuel : Nat) (args : List Val) (h : Heap) (ch : List Bool) (v : Val) (h' : Heap)
+    (hreq : request p fuel f args h ch = some (v, h')) :
+    ∀ r, r < h.next → h'.aver r ≠ h.aver r →
+      ∃ i, (2 * i + 1 ∈ (getE Summ.bot S f).mutA ∧ r ∈ (getV args i).own) ∨
+           (2 * i + 2 ∈ (getE Summ.bot S f).mutA ∧ r ∈ (getV args i).reach) := by
+  obtain ⟨hc, hall⟩ := checkWith_spec hchk
+  obtain ⟨hok, h0, _, _, _⟩ := fnOK_spec (hall f fn hf)
+  obtain ⟨hver, _, _⟩ := request_sound hc hf hok hreq
+  intro r hr hne
+  have := hver false r (by simpa [Heap.ver] using hne)
+  rcases this with hge | ⟨a, ha, hh⟩
+  · exact absurd hge (Nat.not_le_of_lt hr)
+  · simp only [Summ.mut] at ha
+    cases a with
+    | zero => exact absurd ha h0
+    | succ n =>
+      simp only [holds] at hh
+      refine ⟨n / 2, ?_⟩
+      by_cases hpar : n % 2 = 0
+      · simp only [hpar, if_true] at hh
+        left
+        have : 2 * (n / 2) + 1 = n + 1 := by omega
+        exact ⟨this ▸ ha, hh⟩
+      · simp only [hpar, if_false] at hh
+        right
+        have : 2 * (n / 2) + 2 = n + 1 := by omega
+        exact ⟨this ▸ ha, hh⟩
+
+theorem request_wf (p : Program) (f : FnId)
+    (fuel : Nat) (args : List Val) (h : Heap) (ch : List Bool) (v : Val) (h' : Heap)
+    (hargs : ∀ a ∈ args, ValWF h.next a) (hcache : ∀ kv ∈ h.cache, ValWF h.next kv.2)
+    (hreq : request p fuel f args h ch = some (v, h')) :
+    ValWF h'.next v ∧ (∀ kv ∈ h'.cache, ValWF h'.next kv.2) ∧ h.next ≤ h'.next := by
+  simp only [request] at hreq
+  cases hf : p.fns[f]? with
+  | none => simp [hf] at hreq
+  | some fn =>
+    simp only [hf] at hreq
+    cases h1 : exec p fuel fn.body (St.init args h ch) with
+    | none => simp [h1] at hreq
+    | some st' =>
+      simp only [h1, Option.some.injEq, Prod.mk.injEq] at hreq
+      obtain ⟨hv, hh⟩ := hreq
+      have := exec_wf p fuel fn.body _ st' h1 (StWF_init ch hargs hcache)
+      subst hh; subst hv
+      refine ⟨?_, this.1.cache, this.2⟩
+      cases hr : st'.ret with
+      | none => exact ValWF_none _
+      | some w => exact this.1.ret w hr
+
+theorem runStep_sound (p : Program) (S : List Summ) (hchk : checkWith p S = true) (h h1 : Heap) (s : Step)
+    (hpub : publicOnly p [s]) (hs : runStep p h s = some h1) :
+    (∀ r, r < h.next → h1.aver r = h.aver r) ∧ h.next ≤ h1.next := by
+  cases s with
+  | alloc =>
+    simp only [runStep, Option.some.injEq] at hs
+    subst hs
+    exact ⟨fun _ _ => rfl, Nat.le_succ _⟩
+  | put k v =>
+    simp only [runStep, Option.some.injEq] at hs
+    subst hs
+    exact ⟨fun _ _ => rfl, Nat.le_refl _⟩
+  | req f args fuel ch =>
+    simp only [runStep] at hs
+    cases hreq : request p fuel f args h ch with
+    | none => simp [hreq] at hs
+    | some res =>
+      obtain ⟨v, h2⟩ := res
+      simp only [hreq, Option.some.injEq] at hs
+      subst hs
+      obtain ⟨⟨fn, hf, hp⟩, _⟩ := hpub
+      obtain ⟨hc, hall⟩ := checkWith_spec hchk
+      obtain ⟨hok, _, _, _, _⟩ := fnOK_spec (hall f fn hf)
+      exact ⟨(check_sound_lemma p S hchk f fn hf hp fuel args h ch v h2 hreq).1,
+             (request_sound hc hf hok hreq).2.2⟩
+
+theorem publicOnly_cons {p : Program} {s : Step} {l : List Step} (h : publicOnly p (s :: l)) :
+    publicOnly p [s] ∧ publicOnly p l := by
+  cases s with
+  | alloc => exact ⟨trivial, h⟩
+  | put k v => exact ⟨trivial, h⟩
+  | req f args fuel ch => exact ⟨⟨h.1, trivial⟩, h.2⟩
+
+theorem run_sound (p : Program) (S : List Summ) (hchk : checkWith p S = true) :
+    ∀ (l : List Step) (h h' : Heap), publicOnly p l → run p h l = some h' →
+      (∀ r, r < h.next → h'.aver r = h.aver r) ∧ h.next ≤ h'.next := by
+  intro l
+  induction l with
+  | nil =>
+    intro h h' _ hr
+    simp only [run, Option.some.injEq] at hr
+    subst hr
+    exact ⟨fun _ _ => rfl, Nat.le_refl _⟩
+  | cons s l ih =>
+    intro h h' hpub hr
+    simp only [run] at hr
+    cases hs : runStep p h s with
+    | none => simp [hs] at hr
+    | some h1 =>
+      simp only [hs] at hr
+      obtain ⟨hp1, hp2⟩ := publicOnly_cons hpub
+      obtain ⟨ha, hn⟩ := runStep_sound p S hchk h h1 s hp1 hs
+      obtain ⟨hb, hm⟩ := ih h1 h' hp2 hr
+      exact ⟨fun r hlt => (hb r (Nat.lt_of_lt_of_le hlt hn)).trans (ha r hlt), Nat.le_trans hn hm⟩
+
+theorem history_sound_lemma (p : Program) (S : List Summ) (hchk : checkWith p S = true)
+    (pre post : List Step) (h₀ hm h' : Heap)
+    (hpub : publicOnly p post)
+    (_hpre : run p h₀ pre = some hm) (hpost : run p hm post = some h') :
+    ∀ r, r < hm.next → h'.aver r = hm.aver r :=
+  (run_sound p S hchk post hm h' hpub hpost).1
 
 end AurelVerif.Heap
